@@ -69,7 +69,9 @@ Fixpoint pick_actor (actors : N -> actor) (h : hst) (l : list N) : option (N * N
 Definition after_handle (p : list (N * N)) (h : hst) (a r : N) : hst :=
   mkH (gate_use h a) (if in_poison p a r then Some a else None) (h_nsub h) (h_actors h).
 
-Definition nat_fuel (ops : list op) : nat := 8 * length ops * length ops + 64.
+(* a settle runs `fuel` rounds of at most `fuel` steps each (two levels keep the unary number small
+   for bursts of thousands of publishes) *)
+Definition nat_fuel (ops : list op) : nat := 4 * length ops + 64.
 
 (* ------------------------------------------------------------------ V1 *)
 Module X1.
@@ -135,7 +137,7 @@ Module X1.
 
   Definition cfg := (hst * st * list lab)%type.   (* labels newest first *)
 
-  Fixpoint settle (cap : nat) (p : list (N * N)) (fuel : nat) (c : cfg) : cfg :=
+  Fixpoint settle1 (cap : nat) (p : list (N * N)) (fuel : nat) (c : cfg) : cfg :=
     match fuel with
     | O => c
     | S f =>
@@ -144,11 +146,14 @@ Module X1.
         | None => c
         | Some (l, h') =>
             match step _ cv cap st l with
-            | Some st' => settle cap p f (h', st', l :: acc)
+            | Some st' => settle1 cap p f (h', st', l :: acc)
             | None => c
             end
         end
     end.
+
+  Definition settle (cap : nat) (p : list (N * N)) (fuel : nat) (c : cfg) : cfg :=
+    Nat.iter fuel (settle1 cap p fuel) c.
 
   Definition fire (cap : nat) (c : cfg) (l : lab) : cfg :=
     let '(h, st, acc) := c in
@@ -230,7 +235,7 @@ Module X2.
 
   Definition cfg := (hst * st * list lab)%type.
 
-  Fixpoint settle (ad : bool) (p : list (N * N)) (fuel : nat) (c : cfg) : cfg :=
+  Fixpoint settle1 (ad : bool) (p : list (N * N)) (fuel : nat) (c : cfg) : cfg :=
     match fuel with
     | O => c
     | S f =>
@@ -239,11 +244,14 @@ Module X2.
         | None => c
         | Some (l, h') =>
             match step _ cv ad st l with
-            | Some st' => settle ad p f (h', st', l :: acc)
+            | Some st' => settle1 ad p f (h', st', l :: acc)
             | None => c
             end
         end
     end.
+
+  Definition settle (ad : bool) (p : list (N * N)) (fuel : nat) (c : cfg) : cfg :=
+    Nat.iter fuel (settle1 ad p fuel) c.
 
   Definition fire (ad : bool) (c : cfg) (l : lab) : cfg :=
     let '(h, st, acc) := c in
@@ -383,6 +391,16 @@ Fixpoint check_ops (v2 nd : bool) (cap : nat) (sc : scen) (ops : list op) (res :
 
 Definition check_C16 (v2 : bool) (cap : nat) (sc : scen) (res : list (list N)) : bool :=
   check_ops v2 false cap sc (sc_ops sc) res.
+
+(* what the harness observed for a scenario: the per-subscription sequences, or that the driver
+   never came back from a publish / subscribe call (watchdog).  Publishing never blocks
+   (C16_v1_publish_nonblocking, C16_v2_publish_nonblocking): Blocked is always rejected. *)
+Inductive obs := Done (res : list (list N)) | Blocked.
+Definition check_C16_obs (v2 nd : bool) (cap : nat) (sc : scen) (o : obs) : bool :=
+  match o with
+  | Done res => check_ops v2 nd cap sc (sc_ops sc) res
+  | Blocked => false
+  end.
 
 (* v2 port created with allow_duplicate_subscription = false *)
 Definition check_C16_nodup (cap : nat) (sc : scen) (res : list (list N)) : bool :=
